@@ -7,7 +7,7 @@
 """
 import random
 
-from harness import common, gen, b09lex
+from harness import common, gen, b09lex, decblex
 
 PID = "C09"
 ALNUM = [chr(65 + i) for i in range(26)] + [str(d) for d in range(10)]
@@ -82,13 +82,39 @@ def main():
             continue
         cases.append({"id": len(cases) + 1, "vars": p["vars"], "out": b09lex.lex_nonblank(r["out"])})
         meta.append(("\n".join(p["lines"]), r["out"]))
+    # keyword-shaped names: every position of one name forms a group (a variable everywhere, or nowhere)
+    kws = sorted({w for w in decblex.KEYWORDS if w.isalpha()})
+    kwnames = sorted(set(kws + [w + "X" for w in kws] + [w[:k] for w in kws for k in range(2, len(w))] + ["ERRO", "ERN", "TOX", "ONE", "IFF", "ORB", "FNA"]))
+    if not thorough:
+        kwnames = sorted(set(kws + gen.sample(rng, kwnames, 60)))
+    gplan = []
+    for nm in kwnames:
+        for pos in POS:
+            s1, v1 = use(nm, pos)
+            gplan.append((nm, pos, v1, "10 " + s1 + "\n900 DATA 1,2:END"))
+    gres = common.run_real("w_convert", [{"src": g[3], "opts": {"add_standard_prefix": False, "initialize_vars": False}} for g in gplan])
+    groups = {}
+    for (nm, pos, v1, src), r in zip(gplan, gres):
+        if "out" not in r:
+            rep.count("keyword_name_refused")
+            continue
+        rep.count("keyword_name_accepted")
+        # the other variables of the statement as Color BASIC itself reads it (CLSX=1 is CLS X=1)
+        toks = decblex.lex_body(src.split("\n")[0][3:])
+        extras = [{"name": list(t["s"]), "arr": k + 1 < len(toks) and toks[k + 1]["v"] == "("} for k, t in enumerate(toks) if t["k"] == "id"]
+        groups.setdefault(nm, []).append({"vars": [v1] + extras, "out": b09lex.lex_nonblank(r["out"]), "src": src, "text": r["out"]})
+    for nm, uses in sorted(groups.items()):
+        cases.append({"id": len(cases) + 1, "uses": [{"vars": u["vars"], "out": u["out"]} for u in uses]})
+        meta.append((" || ".join(u["src"].split("\n")[0] for u in uses), " || ".join(u["text"].strip().split("\n")[0] for u in uses)))
+    rep.count("keyword_shaped_names", len(kwnames))
     vds = common.judge("Trace_C09", cases, rep, wd, shard=6000)
     ok = []
     for (src, out), v, c in zip(meta, vds, cases):
         rep.cov["traces_validated_against_impl"] += 1
         if v["ok"]:
             rep.count("accepted")
-            ok.append((src, out, c))
+            if "uses" not in c:
+                ok.append((src, out, c))
             rep.sample({"src": src, "out": out.strip(), "verdict": "ok"}, cap=5)
         else:
             rep.count("rejected")
